@@ -62,6 +62,7 @@ type funcVC struct {
 	closureIDs map[*ssa.Function]int
 	boxed map[string]string
 	nSends int
+	nInvSites int
 	localSorts map[string]string
 	callCount map[string]int
 	siteCount map[string]int
@@ -194,6 +195,12 @@ func (vc *funcVC) run() (err error) {
 			}
 		}
 	}
+	// state invariants of the sweep this function belongs to
+	invs := vc.scopeInvariants(fn)
+	for _, cl := range invs {
+		tr := &trans{c: c, pkg: cl.Target, vars: map[string]tvar{}, cur: st, old: st, depth: 1}
+		c.assume(vc.trClause(tr, cl))
+	}
 	nReq := len(c.assumes)
 	if vc.safety && vc.recursive(fn) {
 		hasDec := false
@@ -227,6 +234,14 @@ func (vc *funcVC) run() (err error) {
 					Goal: and(r.cond, not(f)), Pos: fmt.Sprintf("%s:%d", relPath(cl.File), cl.Line), Clause: cl.Src + "   [at the return in " + r.pos + "]", Props: propsOfLabel(cl.Label, vc.props),
 					Inputs: vc.inputTerms(), Splits: fr.joinSplits(r.block)})
 			}
+		}
+	}
+	for i, r := range fr.rets {
+		for k, cl := range invs {
+			tr := &trans{c: c, pkg: cl.Target, vars: map[string]tvar{}, cur: r.st, old: vc.entry, depth: 1}
+			f := vc.trClause(tr, cl)
+			vc.addObl(&obligation{Name: fmt.Sprintf("ensures/%s.%d@ret%d", cl.Label, k+1, i+1), Kind: "ensures", Label: cl.Label,
+				Goal: and(r.cond, not(f)), Pos: fmt.Sprintf("%s:%d", relPath(cl.File), cl.Line), Clause: "invariant " + cl.Src + "   [at the return in " + r.pos + "]", Props: []string{vc.layer}, Inputs: vc.inputTerms()})
 		}
 	}
 	// a call-site clause that matched no call would silently check nothing
@@ -266,6 +281,14 @@ func propsOfLabel(label string, dflt []string) []string {
 	return dflt
 }
 
+// scopeInvariants: the state invariants of the layer if fn belongs to its sweep.
+func (vc *funcVC) scopeInvariants(fn *ssa.Function) []*clause {
+	if vc.layer == "" || vc.w.inScopeFn == nil || fn == nil || !vc.w.inScopeFn(fn, vc.layer) {
+		return nil
+	}
+	return vc.w.db.Invariants[vc.layer]
+}
+
 func (vc *funcVC) allContracts() []*contract {
 	var cs []*contract
 	cs = append(cs, vc.icts...)
@@ -297,6 +320,11 @@ func (vc *funcVC) tryLoopClause(tr *trans, cl *clause) (f string, ok bool) {
 			panic(r)
 		}
 	}()
+	if cl.Kind == "invariant" && cl.Target != "" && tr.pkg != cl.Target {
+		t2 := *tr
+		t2.pkg = cl.Target
+		return vc.trClause(&t2, cl), true
+	}
 	return vc.trClause(tr, cl), true
 }
 
@@ -911,6 +939,8 @@ func (fr *frame) enterLoop(li *loopInfo, h *ssa.BasicBlock, pre *state, enter st
 			}
 		}
 	}
+	// the state invariants of the sweep hold at every loop head of its functions
+	li.invs = append(li.invs, vc.scopeInvariants(vc.fn)...)
 	// entry values of phis
 	entryVals := map[*ssa.Phi]string{}
 	var phis []*ssa.Phi
